@@ -7,6 +7,7 @@ import Liftbridge.Base
 import Liftbridge.Driver.Crc
 import Liftbridge.Model.Envelope
 import Liftbridge.Driver.LogDrv
+import Liftbridge.Driver.TelemetryDrv
 
 namespace Liftbridge.Driver
 open Liftbridge
@@ -46,6 +47,7 @@ def c14 (toks : List String) : String :=
 def step (st : St) (line : String) : St × String :=
   match (line.splitOn " ").filter (· ≠ "") with
   | "c14" :: rest => (st, c14 rest)
+  | "c19" :: rest => (st, c19 rest)
   | "log" :: rest => let (l, out) := logStep st.log rest; ({ st with log := l }, out)
   | _ => (st, "bad-op")
 
